@@ -47,6 +47,7 @@ func (w *World) runMonitors() {
 	w.monTakeover(h)
 	w.monResendOrder(h)
 	w.monMissing(h)
+	w.monKept(h)
 }
 
 // C15: packets retransmitted after a resume go out in the order of their original transmission
@@ -991,4 +992,107 @@ func (w *World) monMissing(h []ev) {
 			w.hit(kind, x.what+": never sent although the receiving connection stayed alive and acknowledged everything")
 		}
 	}
+}
+
+// C08: what was transmitted at QoS >= 1 stays recorded until the peer's PUBACK / PUBCOMP: its packet id is not handed out
+// again for a new message while it is unacknowledged (the store is keyed by id: re-use overwrites the record), and a
+// resumed session retransmits every unacknowledged packet (PUBLISH flagged DUP with the same payload, PUBREL once the
+// PUBREC was received) in the same step in which it is resumed.
+func (w *World) monKept(h []ev) {
+	type rec struct {
+		tag string
+		rel bool
+	}
+	key := func(c int) string {
+		p := w.peers[c]
+		if p == nil || p.clientID == "" || p.clean {
+			return fmt.Sprintf("conn%d", c)
+		}
+		return "id:" + p.clientID
+	}
+	out := map[string]map[packet.ID]*rec{}
+	get := func(k string) map[packet.ID]*rec {
+		if out[k] == nil {
+			out[k] = map[packet.ID]*rec{}
+		}
+		return out[k]
+	}
+	expect := map[int]map[packet.ID]*rec{} // resumed connection -> what must still be retransmitted in this step
+	dead := map[int]bool{}
+	flush := func() {
+		for c, m := range expect {
+			if !dead[c] {
+				for id, r := range m {
+					what := fmt.Sprintf("PUBLISH %q", r.tag)
+					if r.rel {
+						what = "PUBREL"
+					}
+					w.hit("resend-missing", fmt.Sprintf("connection %d resumed its session but packet id %d (%s), transmitted earlier and never acknowledged, was not retransmitted", c, id, what))
+				}
+			}
+			delete(expect, c)
+		}
+	}
+	for _, e := range h {
+		if strings.HasPrefix(e.kind, "stim-") || e.kind == "bclose" || e.kind == "ackrelease" || e.kind == "finish" {
+			flush() // the previous step is over
+		}
+		k := key(e.conn)
+		switch e.kind {
+		case "closed":
+			dead[e.conn] = true
+		case "setup":
+			if e.txt == "0" {
+				delete(out, k)
+			} else {
+				m := map[packet.ID]*rec{}
+				for id, r := range get(k) {
+					m[id] = &rec{r.tag, r.rel}
+				}
+				expect[e.conn] = m
+			}
+		case "sent", "sendfail":
+			switch p := e.pkt.(type) {
+			case *packet.Publish:
+				if p.Message.QOS == 0 {
+					continue
+				}
+				tag := string(p.Message.Payload)
+				if !p.Dup {
+					if r, busy := get(k)[p.ID]; busy {
+						w.hit("id-reused-while-unacked", fmt.Sprintf("connection %d: packet id %d handed to new message %q while %q sent under the same id is still unacknowledged", e.conn, p.ID, tag, r.tag))
+					}
+				} else if m := expect[e.conn]; m != nil {
+					if r, ok := m[p.ID]; ok && !r.rel && r.tag != tag {
+						w.hit("resend-altered", fmt.Sprintf("connection %d: id %d retransmitted with payload %q, originally %q", e.conn, p.ID, tag, r.tag))
+					}
+					delete(m, p.ID)
+				}
+				get(k)[p.ID] = &rec{tag: tag}
+			case *packet.Pubrel:
+				if m := expect[e.conn]; m != nil {
+					delete(m, p.ID)
+				}
+				if r := get(k)[p.ID]; r != nil {
+					r.rel = true
+				} else {
+					get(k)[p.ID] = &rec{rel: true}
+				}
+			}
+		case "stim-send":
+			switch p := e.pkt.(type) {
+			case *packet.Puback:
+				delete(get(k), p.ID)
+			case *packet.Pubcomp:
+				delete(get(k), p.ID)
+			case *packet.Pubrec:
+				if r := get(k)[p.ID]; r != nil {
+					r.rel = true
+				} else {
+					get(k)[p.ID] = &rec{rel: true}
+				}
+			}
+		}
+	}
+	flush()
 }
